@@ -1804,26 +1804,59 @@ func patchCode(context *funcContext) { // {{{
 		curop := opGetOpCode(inst)
 		switch curop {
 		case OP_CLOSURE:
+			if reg := opGetArgA(inst); reg > maxreg {
+				maxreg = reg
+			}
 			pc += int(context.Proto.FunctionPrototypes[opGetArgBx(inst)].NumUpvalues)
 			moven = 0
 			continue
 		case OP_SETLIST:
+			if reg := opGetArgA(inst) + opGetArgB(inst); reg > maxreg {
+				maxreg = reg
+			}
 			if opGetArgC(inst) == 0 {
 				// the next word is the batch number, not an instruction
 				pc++
 				moven = 0
 				continue
 			}
-		case OP_SETGLOBAL, OP_SETUPVAL, OP_EQ, OP_LT, OP_LE, OP_TEST,
-			OP_TAILCALL, OP_RETURN, OP_FORPREP, OP_FORLOOP, OP_TFORLOOP,
-			OP_CLOSE:
+		case OP_SETGLOBAL, OP_SETUPVAL, OP_EQ, OP_LT, OP_LE, OP_CLOSE:
 			/* nothing to do */
+		case OP_TAILCALL:
+			if reg := opGetArgA(inst) + opGetArgB(inst) - 1; reg > maxreg {
+				maxreg = reg
+			}
+		case OP_RETURN:
+			if reg := opGetArgA(inst) + opGetArgB(inst) - 2; opGetArgB(inst) != 1 && reg > maxreg {
+				maxreg = reg
+			}
+		case OP_FORPREP, OP_FORLOOP:
+			if reg := opGetArgA(inst) + 3; reg > maxreg {
+				maxreg = reg
+			}
+		case OP_TFORLOOP:
+			if reg := opGetArgA(inst) + 2 + opGetArgC(inst); reg > maxreg {
+				maxreg = reg
+			}
 		case OP_CALL:
 			if reg := opGetArgA(inst) + opGetArgC(inst) - 2; reg > maxreg {
 				maxreg = reg
 			}
-		case OP_VARARG:
 			if reg := opGetArgA(inst) + opGetArgB(inst) - 1; reg > maxreg {
+				maxreg = reg
+			}
+		case OP_VARARG:
+			if reg := opGetArgA(inst) + opGetArgB(inst) - 2; reg > maxreg {
+				maxreg = reg
+			}
+			if reg := opGetArgA(inst); reg > maxreg {
+				maxreg = reg
+			}
+		case OP_CONCAT:
+			if reg := opGetArgC(inst); reg > maxreg {
+				maxreg = reg
+			}
+			if reg := opGetArgA(inst); reg > maxreg {
 				maxreg = reg
 			}
 		case OP_SELF:
